@@ -357,7 +357,7 @@ def eval_threads(case):
                 vs.append(V("creator_unchanged", f"threads|{sig_kind}|main_changed", c, main_value, main_after))
         return vs
 
-    runs, vs, capped = thr_explore(make, check, bound=bound, max_runs=case.get("max_runs"))
+    runs, vs, capped = thr_explore(make, check, bound=bound, max_runs=case.get("max_runs"), deadline=_DEADLINE[0])
     stats["runs"] = runs
     stats["capped"] = capped
     # keep only the first violation per signature (smallest schedule first would need BFS; DFS order is deterministic)
@@ -703,8 +703,13 @@ def units(tier, seed):
     return us
 
 
+_DEADLINE = [None]  # time budget of the running check (set per unit): line-level exploration at bound 2 grows with the square of the
+# number of lines in the traced methods and must stop when the budget is spent (reported as capped)
+
+
 def run_unit(unit, ctx):
     p = Partial()
+    _DEADLINE[0] = ctx.deadline
     kind = unit["kind"]
     if kind == "nesting":
         k = 0
